@@ -255,6 +255,50 @@ def job_corpus(path):
     return acc
 
 
+@worker
+def job_script(paths):
+    """scripts/generate_tokens.py: for every corpus file alone its output is the golden .tokens file; for several paths in one invocation
+    (one Parser, one TokenFormatterBuilder reused) the output is the concatenation of the single outputs, in the order given."""
+    import os
+    from .c17 import run_script
+    acc = Acc()
+    singles = []
+    for path in paths:
+        rel = '../testdata/good/' + os.path.basename(path)
+        case = {'kind': 'script', 'paths': [rel]}
+        acc.n += 1
+        acc.validated += 1
+        acc.nontrivial += 1
+        try:
+            out = run_script('generate_tokens', [rel])
+        except BaseException as e:  # noqa: BLE001
+            acc.violation('script-exception', case, 'generate_tokens raised %s: %s' % (type(e).__name__, e))
+            singles.append(None)
+            continue
+        singles.append(out)
+        want = open(path + '.tokens', encoding='utf8', newline='').read()
+        if out != want:
+            gl, wl = out.split('\n'), want.split('\n')
+            i = next((i for i, (x, y) in enumerate(zip(gl, wl)) if x != y), min(len(gl), len(wl)))
+            acc.violation('script-vs-corpus', case, 'generate_tokens output differs from %s.tokens at row %d' % (os.path.basename(path), i + 1), observed=gl[i:i + 1], expected=wl[i:i + 1])
+    if all(x is not None for x in singles) and len(paths) > 1:
+        for order in (list(range(len(paths))), list(range(len(paths)))[::-1], [0, 0, len(paths) - 1]):
+            rels = ['../testdata/good/' + os.path.basename(paths[i]) for i in order]
+            case = {'kind': 'script', 'paths': rels}
+            acc.n += 1
+            acc.validated += 1
+            acc.nontrivial += 1
+            try:
+                out = run_script('generate_tokens', rels)
+            except BaseException as e:  # noqa: BLE001
+                acc.violation('script-exception', case, 'generate_tokens raised %s: %s' % (type(e).__name__, e))
+                continue
+            if out != ''.join(singles[i] for i in order):
+                acc.violation('script-multi', case, 'generate_tokens over %d paths does not print the concatenation of the listings of the single files' % len(rels))
+    acc.sample({'script': 'generate_tokens', 'files': [os.path.basename(p) for p in paths]})
+    return acc
+
+
 def _noid(o):
     if isinstance(o, dict):
         return {k: _noid(v) for k, v in o.items() if k != 'id'}
@@ -459,6 +503,7 @@ def run(ctx):
     ctx.assumptions = ['kind level abstracts lexing (stub matcher); the text level uses the real matcher and the reference lexer self-tested on the corpus']
     good, bad = R.corpus()
     ctx.level('corpus-token-listings', [job_corpus.job(p) for p in good])
+    ctx.level('generate_tokens script on the corpus, alone and several paths at once', [job_script.job(good[i:i + 3]) for i in range(0, len(good), 3)])
     L = ctx.pick(5, 6)
     jobs = [job_words.job((), 1)] + [job_words.job((a,), 1) for a in KINDS] + [job_words.job((a, b), L) for a in KINDS for b in KINDS]
     ctx.level('kind-sequences L<=%d' % L, jobs)
@@ -485,6 +530,10 @@ def replay(case):
                 acc.merge(job_after_abort(i))
     elif case.get('kind') == 'corpus':
         acc.merge(job_corpus(case['path']))
+    elif case.get('kind') == 'script':
+        import os
+        from .. import core as _core
+        acc.merge(job_script([os.path.join(_core.REPO, 'testdata', 'good', os.path.basename(p)) for p in dict.fromkeys(case['paths'])]))
     elif case.get('kind') == 'file-text':
         import os
         import tempfile
